@@ -130,6 +130,98 @@ def trafo_model(net, i, model="t", calc_angles=True, loading="current"):
                 loading_percent=ld, pl_mw=(S[0] + S[1]).real, ql_mvar=(S[0] + S[1]).imag)
 
 
+# ----------------------------------------------------------------------------------------------------------- trafo3w
+def _two_port(vnh, vnl, shift, vk, vkr, sn, pfe_kw, i0, model):
+    """2x2 nodal admittance matrix (S) of one equivalent two-winding transformer; (vnh, vnl) already tapped"""
+    zk = vk / 100 * vnl ** 2 / sn
+    rk = vkr / 100 * vnl ** 2 / sn
+    xk = np.sign(zk) * np.sqrt(max(zk ** 2 - rk ** 2, 0.))
+    Z = rk + 1j * xk
+    ym = i0 / 100 * sn
+    pfe = pfe_kw * 1e-3
+    Ym = (pfe - 1j * np.sqrt(max(ym ** 2 - pfe ** 2, 0))) / vnl ** 2
+    N = vnh / vnl * np.exp(1j * np.deg2rad(shift))
+    if model == "pi" or Ym == 0:
+        ys = 1 / Z
+        Y = np.array([[ys + Ym / 2, -ys], [-ys, ys + Ym / 2]])
+    else:
+        za = Z / 2
+        ya = 1 / za
+        Y3 = np.array([[ya, 0, -ya], [0, ya, -ya], [-ya, -ya, 2 * ya + Ym]])
+        Y = Y3[:2, :2] - np.outer(Y3[:2, 2], Y3[2, :2]) / Y3[2, 2]
+    return np.array([[Y[0, 0] / abs(N) ** 2, Y[0, 1] / np.conj(N)], [Y[1, 0] / N, Y[1, 1]]])
+
+
+def _complex_tap(u1, d, sp, sd):
+    du = u1 * sp * d / 100 * np.exp(1j * np.deg2rad(sd))
+    return abs(u1 + du), du
+
+
+def trafo3w_model(net, i, model="t", loss_side="hv"):
+    """three two-winding equivalents in Y connection around the internal (star) bus, documented conversion of doc/elements/trafo3w.rst;
+    the star bus voltage is taken from res_trafo3w.vm_internal_pu / va_internal_degree. Returns terminal powers/currents and the
+    current balance at the star bus (must be ~0)."""
+    t = net.trafo3w.loc[i]
+    r = net.res_trafo3w.loc[i]
+    sn = {"hv": t.sn_hv_mva, "mv": t.sn_mv_mva, "lv": t.sn_lv_mva}
+
+    def star(a_hm, a_ml, a_lh):
+        hm = a_hm * sn["hv"] / min(sn["hv"], sn["mv"])
+        ml = a_ml * sn["hv"] / min(sn["mv"], sn["lv"])
+        lh = a_lh * sn["hv"] / min(sn["hv"], sn["lv"])
+        t1 = 0.5 * (hm + lh - ml)
+        t2 = 0.5 * (ml + hm - lh) * sn["mv"] / sn["hv"]
+        t3 = 0.5 * (ml + lh - hm) * sn["lv"] / sn["hv"]
+        return {"hv": t1, "mv": t2, "lv": t3}
+    # the delta -> star conversion is applied to the resistive and reactive parts separately (complex impedances); the
+    # documentation shows it for the magnitudes only, which differs by O(1e-5) relative
+    vkr = star(t.vkr_hv_percent, t.vkr_mv_percent, t.vkr_lv_percent)
+    vkx = star(*[np.sqrt(max(a ** 2 - b ** 2, 0.)) for a, b in ((t.vk_hv_percent, t.vkr_hv_percent), (t.vk_mv_percent, t.vkr_mv_percent),
+                                                                  (t.vk_lv_percent, t.vkr_lv_percent))])
+    vk = {k: np.sign(vkx[k]) * np.hypot(vkx[k], vkr[k]) for k in vkx}
+    vn = {"hv": float(t.vn_hv_kv), "mv": float(t.vn_mv_kv), "lv": float(t.vn_lv_kv)}
+    shift = {"hv": 0., "mv": float(t.shift_mv_degree), "lv": float(t.shift_lv_degree)}
+    # rated voltages of the three equivalents: (star side, terminal side); T1 is hv terminal -> star
+    volt = {"hv": [vn["hv"], vn["hv"]], "mv": [vn["hv"], vn["mv"]], "lv": [vn["hv"], vn["lv"]]}   # [from, to]
+    extra_shift = {"hv": 0., "mv": 0., "lv": 0.}
+    tct = t.get("tap_changer_type", None)
+    if not (tct is None or (isinstance(tct, float) and np.isnan(tct)) or pd.isna(t.tap_pos)) and tct in ("Ratio", "Symmetrical"):
+        side = t.tap_side
+        d = float(t.tap_pos) - float(t.tap_neutral)
+        sp = 0. if pd.isna(t.tap_step_percent) else float(t.tap_step_percent)
+        sd = 0. if pd.isna(t.tap_step_degree) else float(t.tap_step_degree)
+        at_star = bool(t.tap_at_star_point)
+        # index of the tapped winding inside `volt[side]`: hv terminal is the 'from' side of T1, mv/lv terminals the 'to' side
+        term = 0 if side == "hv" else 1
+        if not at_star:
+            k, direction = term, (1 if term == 0 else -1)
+        else:
+            k, direction = 1 - term, (1 if (1 - term) == 0 else -1)
+            tc = 100 * sp * np.exp(1j * np.deg2rad(sd)) / (100 + sp * np.exp(1j * np.deg2rad(sd)) * d)
+            sp, sd = abs(tc), np.rad2deg(np.angle(tc)) - 180
+        u1 = volt[side][k]
+        newu, du = _complex_tap(u1, d, sp, sd)
+        volt[side][k] = newu
+        extra_shift[side] = np.rad2deg(np.arctan(direction * du.imag / (u1 + du.real)))
+    vb = {s: cvolt(net, t[s + "_bus"]) for s in ("hv", "mv", "lv")}
+    vstar = r.vm_internal_pu * net.bus.vn_kv.at[t.hv_bus] * np.exp(1j * np.deg2rad(r.va_internal_degree))
+    out, istar = {}, 0j
+    for s in ("hv", "mv", "lv"):
+        pfe = float(t.pfe_kw) if loss_side == s else 0.
+        i0 = float(t.i0_percent) if loss_side == s else 0.
+        Y = _two_port(volt[s][0], volt[s][1], shift[s] + extra_shift[s], vk[s], vkr[s], sn[s], pfe, i0, model)
+        v = np.array([vb["hv"], vstar]) if s == "hv" else np.array([vstar, vb[s]])
+        I = Y @ v
+        S = v * np.conj(I)
+        kterm, kstar = (0, 1) if s == "hv" else (1, 0)
+        out["p_%s_mw" % s] = S[kterm].real
+        out["q_%s_mvar" % s] = S[kterm].imag
+        out["i_%s_ka" % s] = abs(I[kterm]) / SQ3
+        istar += I[kstar]
+    out["star_current_balance_ka"] = abs(istar) / SQ3
+    return out
+
+
 # ----------------------------------------------------------------------------------------------------------- impedance
 def impedance_model(net, i):
     """per-unit element on its own base sn_mva and the rated voltages of its buses"""
